@@ -143,7 +143,13 @@ class Case:
             known_findings=[], nonreproducing=[], harness_errors=[], samples=[], regimes={},
             validated=0, validation_mismatch=[], notes=[], paths=0, nontrivial_paths=0,
             skipped_after_violation=0, obligation_labels={}, twin_checked=0, twin_ok=0, exc_outcomes={},
+            xsolver_checked=0, xsolver_agree=0, xsolver_unknown=0, xsolver_s=0.0,
         )
+        # cross-solver audit (DESIGN 2.10): a deterministic sample of the discharged obligations is re-decided by cvc5
+        # from the SMT-LIB2 text; a contradicting verdict is a harness error, `unknown` is only recorded
+        self._xs_every, self._xs_cap = ((7, 40) if tier == "thorough" else (29, 6))
+        if os.environ.get("VERIF_XSOLVER") == "0":
+            self._xs_cap = 0
         self._viol_per_label: dict = {}
         self._known_done: set = set()
 
@@ -201,6 +207,8 @@ class Case:
             rep["discharged"] += 1
             if z3.is_true(z3.simplify(claim)):
                 rep["ground"] += 1
+            elif rep["xsolver_checked"] < self._xs_cap and rep["discharged"] % self._xs_every == 0:
+                self._cross_solver(main, label)
             verdict = "holds"
         elif r == "unknown":
             r2 = self._second_opinion(main)
@@ -245,6 +253,23 @@ class Case:
         goal = list(hyps) + [sub(c) for c in cuts] + [z3.Not(sub(claim))] + [z3.Not(sub(reg)) for _, reg in active]
         r, _ = solve(goal, stats=self.stats, seed=self.seed, stages=(("default", 3000), ("qfnra-nlsat", 8000)))
         return r == "unsat"
+
+    def _cross_solver(self, forms, label):
+        rep = self.rep
+        t = time.time()
+        try:
+            from .solvers import cvc5_check
+            r = cvc5_check(forms, timeout_ms=8000)
+        except Exception:
+            r = "unknown"
+        rep["xsolver_s"] = round(rep["xsolver_s"] + time.time() - t, 3)
+        rep["xsolver_checked"] += 1
+        if r == "unsat":
+            rep["xsolver_agree"] += 1
+        elif r == "sat":
+            rep["harness_errors"].append(f"solvers disagree on a discharged obligation (z3 unsat, cvc5 sat): {label}")
+        else:
+            rep["xsolver_unknown"] += 1
 
     def _second_opinion(self, forms):
         try:
